@@ -591,6 +591,30 @@ def primaryFee (e : Env) : List TxFee → Int
      | some k => t.net - ((k : Int) + 1) * e.attrFee
      | none => t.net) + primaryFee e ts
 
+/-- fees the account `a` has to pay as sender in this block. -/
+def owedBy (a : Nat) : List TxFee → Int
+  | [] => 0
+  | t :: ts => (if t.sender = a then t.sys + t.net else 0) + owedBy a ts
+
+/-- fees charged to the deposit of `p` in this block (transactions sent by the Notary contract `nt`, paid by `p`). -/
+def chargedTo (nt p : Nat) : List TxFee → Int
+  | [] => 0
+  | t :: ts => (if t.sender = nt ∧ t.nkeys.isSome ∧ t.payer = some p then t.sys + t.net else 0) + chargedTo nt p ts
+
+/-- the block is covered on the ledger its OnPersist sees — what transaction verification guarantees: the primary
+index is a validator position, fees are positive, a transaction of the Notary contract names its payer, every
+sender's GAS covers the fees of all its transactions, every payer's deposit covers what is charged to it, the
+network fees cover the notary service fees.  The driver evaluates it on every block of the real chain. -/
+def coveredB (e : Env) (l : Ledger) (pidx : Nat) (txs : List TxFee) : Bool :=
+  decide (pidx < e.vcount) &&
+  txs.all (fun t => decide (0 < t.sys + t.net)) &&
+  txs.all (fun t => !(decide (t.sender = e.notary) && t.nkeys.isSome) || t.payer.isSome) &&
+  txs.all (fun t => decide (owedBy t.sender txs ≤ (get l.gas t.sender).getD 0)) &&
+  txs.all (fun t => match t.payer with
+    | some p => decide (chargedTo e.notary p txs ≤ ((get l.deps p).map (·.amount)).getD 0)
+    | none => true) &&
+  decide (0 ≤ primaryFee e txs)
+
 /-- GAS.OnPersist (109-132). -/
 def gasOnPersist (e : Env) (l : Ledger) (primary : Nat) (txs : List TxFee) : Option Ledger :=
   if txs.isEmpty then some l
@@ -765,11 +789,12 @@ def tokC (e : Env) : Tok → Nat
 
 /-! ## Policy.blockAccount / unblockAccount -/
 
-/-- BlockAccountInternalDeferrable (policy.go:668-702) after the committee check, for an account that is not a
+/-- BlockAccountInternalDeferrable (policy.go:668-711) after the committee check, for an account that is not a
 contract: the votes of the account are revoked without a witness (RevokeVotesDeferrable, native_neo.go:1036-1038;
-its error is ignored), the GAS it had not claimed is minted to it, then the account is added to the list and the
-NEO cache is told that the next committee has to be recomputed (726-730).
-`none` = panic; the Bool is the method's result. -/
+its error is ignored), the GAS it had not claimed is minted to it, then the continuation looks the account up again
+(676-683: contract code run by the payment callback could have blocked it meanwhile — not for a plain account, so the
+second test repeats the first), adds it to the list and tells the NEO cache that the next committee has to be
+recomputed (markCommitteeOutdated).  `none` = panic; the Bool is the method's result. -/
 def blockAccount (e : Env) (l : Ledger) (acc : Nat) : Option (Ledger × Bool) :=
   if l.blocked.contains acc then some (l, false)
   else
